@@ -273,6 +273,10 @@ fn sm_classify(x: &[f64]) -> &'static str {
         "706<=x<=709.5,n>=100"
     } else if mn >= -745.0 && mx <= -709.0 {
         "-745<=x<=-709"
+    } else if mx > 700.0 && mx < 710.0 {
+        "700<max<710"
+    } else if mx > -746.0 && mx < -700.0 {
+        "-746<max<-700"
     } else {
         "other"
     }
@@ -421,8 +425,23 @@ fn run_softmax(cfg: &Cfg, rep: &mut Report) {
     let n = cfg.pick(8000, 160_000, 20);
     par_cases(cfg, rep, 3, n, |i, rng, rep| {
         let len = sm_len(rng, i);
-        let class = (i / 8) % 10;
+        let class = (i / 8) % 12;
         let x: Vec<f64> = match class {
+            // maximum anywhere just below the overflow threshold of exp (709.78), entries within w of
+            // it, and (half of the time) enough of them for the *sum* of exponentials to overflow
+            10 => {
+                let b = rng.range(700.5, 709.7);
+                let w = *rng.choose(&[0.0, 1e-3, 1.0, 4.0]);
+                let need = (709.8 - (b - 0.5 * w)).exp().ceil() as usize;
+                let l = if rng.bool() { len.max(need.min(1000)) } else { len };
+                (0..l).map(|_| on_grid(rng.range(b - w, b))).collect()
+            }
+            // mirror image: maximum just above the underflow threshold (-745.1)
+            11 => {
+                let b = rng.range(-745.0, -700.5);
+                let w = *rng.choose(&[0.0, 1e-3, 1.0, 4.0]);
+                (0..len).map(|_| on_grid(rng.range(b - w, b))).collect()
+            }
             // |x| <= 700, several shapes
             0 => (0..len).map(|_| on_grid(rng.range(-700.0, 700.0))).collect(),
             1 => (0..len).map(|_| on_grid(rng.range(-700.0, -300.0))).collect(), // +1e3 stays in band
@@ -463,7 +482,7 @@ fn run_softmax(cfg: &Cfg, rep: &mut Report) {
     sm_case(rep, &[0.0]);
     sm_case(rep, &[5.0, 5.0, 5.0, 5.0]);
     rep.sample(|| json!({"fn": "softmax", "x": [1.0, 2.0, 3.0], "value": softmax(&[1.0, 2.0, 3.0])}));
-    for r in ["|x|<=700", "0<=max<=700,min<-700", "max>=710", "max<=-746", "706<=x<=709.5,n>=100", "-745<=x<=-709"] {
+    for r in ["|x|<=700", "0<=max<=700,min<-700", "max>=710", "max<=-746", "706<=x<=709.5,n>=100", "-745<=x<=-709", "700<max<710", "-746<max<-700"] {
         rep.require(&format!("softmax:{}", r), 1);
     }
     rep.require("cover:softmax:shift:comparable", 1);
@@ -530,7 +549,19 @@ fn run_boxcox(cfg: &Cfg, rep: &mut Report) {
     par_cases(cfg, rep, 4, n, |i, rng, rep| {
         let lambda = gen_lambda(rng, i);
         // ---- one-parameter form
-        let x = if i % 50 == 0 { 1.0 } else { rng.log_range(1e-6, 1e6) };
+        // x = 1 exactly, x within 1e-15..1e-3 of 1 (x^λ − 1 cancels there for every λ), or log-uniform
+        let x = match i % 50 {
+            0 => 1.0,
+            1..=4 => {
+                let d = rng.log_range(1e-15, 1e-3);
+                if rng.bool() {
+                    1.0 + d
+                } else {
+                    1.0 - d
+                }
+            }
+            _ => rng.log_range(1e-6, 1e6),
+        };
         rep.case("boxcox:x>0");
         rep.distinct(Hasher::new().s("bc").f(x).f(lambda).finish(), x != 1.0);
         match guard(|| boxcox(x, lambda)) {
@@ -584,8 +615,13 @@ fn run_boxcox(cfg: &Cfg, rep: &mut Report) {
             }
             // in domain, shift = 0 or aimed at a given t
             _ => {
-                if rng.bool() {
+                if rng.chance(0.3) {
                     (t, 0.0)
+                } else if rng.chance(0.4) {
+                    // x + shift within 1e-13..1e-3 of 1, both shift signs
+                    let d = rng.log_range(1e-13, 1e-3) * if rng.bool() { 1.0 } else { -1.0 };
+                    let x = rng.range(-4.0, 4.0);
+                    (x, (1.0 + d) - x)
                 } else {
                     let s = on_grid(rng.range(-100.0, 100.0));
                     (on_grid(t.min(9e3)) + 1.0 + s.abs(), s)
